@@ -1,12 +1,44 @@
 package main
 
-// WitnessResult reports one sensitivity witness (thorough tier): a rule evaluated on an
-// in-memory mutated overlay of the current tree must report the broken instance.
+import (
+	"fmt"
+	"os"
+	"path/filepath"
+	"strings"
+	"sync"
+)
+
+// Witness is a sensitivity (or neutrality) test of the checker itself: an in-memory edit of one
+// file of the current tree, applied through go/packages' Overlay (nothing is written to disk).
+// Kind "break": the edit removes one instance of a mechanism; the named rule must report it.
+// Kind "neutral": a behaviour-preserving refactoring; the property's rules must stay silent.
+type Witness struct {
+	Name string
+	Prop string
+	Rule string // expected rule id, e.g. "C01.R1" ("" for neutral)
+	Kind string // break | neutral
+	File string // module-relative file
+	Old  string // unique snippet
+	New  string
+	// further edits (same or other files) for multi-site witnesses
+	More []Edit
+	// KeyHas, if set, must be contained in the reported construct key
+	KeyHas string
+}
+
+type Edit struct{ File, Old, New string }
+
+var witnesses []Witness
+
+func addWitness(w Witness) { witnesses = append(witnesses, w) }
+
+// WitnessResult reports one witness.
 type WitnessResult struct {
 	Name   string `json:"name"`
 	Prop   string `json:"property"`
 	Rule   string `json:"rule"`
-	Status string `json:"status"` // fired | broken | skipped
+	Kind   string `json:"kind"`
+	Status string `json:"status"` // fired | silent | broken | skipped
 	Msg    string `json:"msg"`
 }
 
@@ -15,6 +47,126 @@ type extraResult struct {
 	violations []*Obligation
 }
 
-func runWitnesses(w *World, prop string, ff *FindingsFile) []WitnessResult { return nil }
+func applyEdits(repo string, wit Witness) (map[string][]byte, string) {
+	edits := append([]Edit{{wit.File, wit.Old, wit.New}}, wit.More...)
+	ov := map[string][]byte{}
+	for _, e := range edits {
+		path := filepath.Join(repo, e.File)
+		src, ok := ov[path]
+		if !ok {
+			b, err := os.ReadFile(path)
+			if err != nil {
+				return nil, "file missing: " + e.File
+			}
+			src = b
+		}
+		n := strings.Count(string(src), e.Old)
+		if n != 1 {
+			return nil, fmt.Sprintf("snippet occurs %d times in %s (tree was edited; witness not applicable)", n, e.File)
+		}
+		ov[path] = []byte(strings.Replace(string(src), e.Old, e.New, 1))
+	}
+	return ov, ""
+}
 
-func runExtraConfigs(prop, repo string, ff *FindingsFile) []extraResult { return nil }
+func runWitness(repo string, wit Witness, ff *FindingsFile) WitnessResult {
+	res := WitnessResult{Name: wit.Name, Prop: wit.Prop, Rule: wit.Rule, Kind: wit.Kind}
+	ov, skip := applyEdits(repo, wit)
+	if skip != "" {
+		res.Status = "skipped"
+		res.Msg = skip
+		return res
+	}
+	w, err := Load(LoadOpts{Dir: repo, Overlay: ov})
+	if err != nil {
+		res.Status = "skipped"
+		res.Msg = "mutated tree does not load (witness must type-check): " + err.Error()
+		if len(res.Msg) > 400 {
+			res.Msg = res.Msg[:400]
+		}
+		// a witness that no longer compiles is a broken witness on a pristine tree
+		res.Status = "broken"
+		return res
+	}
+	pr := runProp(w, wit.Prop, "quick", ff)
+	var hits []string
+	for _, o := range pr.violations {
+		if wit.Kind == "neutral" {
+			hits = append(hits, o.Rule+" "+o.Key)
+			continue
+		}
+		if o.Rule == wit.Rule && (wit.KeyHas == "" || strings.Contains(o.Key, wit.KeyHas)) {
+			hits = append(hits, o.Key)
+		}
+	}
+	switch wit.Kind {
+	case "neutral":
+		if len(hits) == 0 {
+			res.Status = "silent"
+			res.Msg = "behaviour-preserving edit raised no report"
+		} else {
+			res.Status = "broken"
+			res.Msg = "false alarm on a behaviour-preserving edit: " + strings.Join(hits, "; ")
+		}
+	default:
+		if len(hits) > 0 {
+			res.Status = "fired"
+			res.Msg = fmt.Sprintf("%d report(s), e.g. %s", len(hits), hits[0])
+		} else {
+			res.Status = "broken"
+			var other []string
+			for _, o := range pr.violations {
+				other = append(other, o.Rule+" "+o.Key)
+			}
+			res.Msg = "expected rule " + wit.Rule + " to report; other reports: " + strings.Join(other, "; ")
+		}
+	}
+	return res
+}
+
+func runWitnesses(w *World, prop string, ff *FindingsFile) []WitnessResult {
+	return runWitnessSet(w.RepoDir, prop, "", ff)
+}
+
+func runWitnessSet(repo, prop, name string, ff *FindingsFile) []WitnessResult {
+	var sel []Witness
+	for _, wt := range witnesses {
+		if wt.Prop == prop && (name == "" || name == "all" || wt.Name == name) {
+			sel = append(sel, wt)
+		}
+	}
+	out := make([]WitnessResult, len(sel))
+	sem := make(chan struct{}, 5)
+	var wg sync.WaitGroup
+	for i := range sel {
+		wg.Add(1)
+		go func(i int) {
+			defer wg.Done()
+			sem <- struct{}{}
+			defer func() { <-sem }()
+			defer func() {
+				if x := recover(); x != nil {
+					out[i] = WitnessResult{Name: sel[i].Name, Prop: prop, Rule: sel[i].Rule, Kind: sel[i].Kind, Status: "broken", Msg: fmt.Sprint("panic: ", x)}
+				}
+			}()
+			out[i] = runWitness(repo, sel[i], ff)
+		}(i)
+	}
+	wg.Wait()
+	return out
+}
+
+// runExtraConfigs re-evaluates the property's rules under additional build configurations.
+func runExtraConfigs(prop, repo string, ff *FindingsFile) []extraResult {
+	var out []extraResult
+	for _, cfg := range []struct{ tags string }{{"deadlock"}} {
+		w, err := Load(LoadOpts{Dir: repo, Tags: cfg.tags})
+		if err != nil {
+			out = append(out, extraResult{summary: "config tags=" + cfg.tags + ": load failed: " + err.Error()})
+			continue
+		}
+		pr := runProp(w, prop, "quick", ff)
+			out = append(out, extraResult{summary: fmt.Sprintf("config tags=%s: %d obligations, %d violations", cfg.tags, len(pr.obls), len(pr.violations)), violations: pr.violations})
+	}
+	return out
+}
